@@ -88,8 +88,10 @@ def regexSources : List (String × String) :=
    ("InfRegex", "^(-|\\+)?[Ii]nf$"),
    ("SymbolRegex", "^[#?]?[^#?':;\\\\~@\\[\\]{}\\^|\"()%0-9,&][^'#:;\\\\~@\\[\\]{}\\^|\"()%,&*\\-]*[:]?$"),
    ("DotSymbolRegex", "^[.]$|^([.][^'#:;\\\\~@\\[\\]{}\\^|\"()%.0-9,][^'#:;\\\\~@\\[\\]{}\\^|\"()%.,*+\\-]*)+$|^[^'#:;\\\\~@\\[\\]{}\\^|\"()%.0-9,][^'#:;\\\\~@\\[\\]{}\\^|\"()%.,*+\\-]*([.][^'#:;\\\\~@\\[\\]{}\\^|\"()%.0-9,][^'#:;\\\\~@\\[\\]{}\\^|\"()%.,*+\\-]*)+$"),
+   ("DotPartsRegex", "[.]?[^'#:;\\\\~@\\[\\]{}\\^|\"()%.0-9,][^'#:;\\\\~@\\[\\]{}\\^|\"()%.,]*"),   -- not used by the lexer
    ("CharRegex", "^'(\\\\?.|\n)'$"),
    ("FloatRegex", "^-?([0-9]+[0-9_]*\\.[0-9_]*)$|^-?(\\.[0-9]+[0-9_]*)$|^-?([0-9]+[0-9_]*(\\.[0-9_]*)?[eE]([-+]?[0-9]+[0-9_]*))$"),
+   ("ComplexRegex", "^-?([0-9]+[0-9_]*\\.[0-9_]*)i?$|^-?(\\.[0-9]+[0-9_]*)i?$|^-?([0-9]+[0-9_]*(\\.[0-9_]*)?[eE](-?[0-9]+[0-9_]*))i?$"),   -- not used by the lexer
    ("BuiltinOpRegex", "^(\\+\\+|\\-\\-|\\+=|\\-=|=|==|:=|\\+|\\-|\\*|<|>|<=|>=|<-|->|\\*=|/=|\\*\\*|!|!=|<!|&&|\\|\\|)$"),
    ("SliceBoundsRegex", "^[0-9][_0-9]*$")]
 
